@@ -200,8 +200,10 @@ def run_path(hist, seed, line_key, workdir, stress=False):
         # Boundary: accept exactly for t <= |signers & auth|
         signers = set(st["signers"])
         auths = [list(range(1, nk + 1)), sorted(r.sample(range(1, nk + 1), r.randint(0, nk)))]
-        for au in auths:
+        for ai, au in enumerate(auths):
             lst = [keys.pub[k] for k in au]
+            if ai == 0:                 # the authorized keys are a SET: listing a key several times changes nothing
+                lst = lst + [keys.pub[k] for k in au if r.random() < 0.7] + lst[:1]
             r.shuffle(lst)
             for t in range(1, nk + 2):
                 out, exc, _ = lib.call(auth.verify_signable, env, lst, t, gpg=False)
